@@ -57,6 +57,20 @@ CHECKS["C15"] = {
     "timeout_thorough": 3000,
 }
 
+CHECKS["C17"] = {
+    "replay_test": "TestC17Replay",
+    "runs": [{"test": "TestC17", "shards_quick": 12, "checks_quick": 500, "shards_thorough": 16, "checks_thorough": 20000}],
+    "rule": "a queue tree (depth<=2) with submit/admin ACLs on every level, 1-3 placement rules (provided / user / tag / fixed, optional fixed parent rule, allow/deny filters with user and group "
+            "lists or a regular expression, create flags), then 5-15 application submissions with users u1-u3 (fixed groups), requested queue in many spellings (qualified, unqualified, parent, "
+            "missing, invalid, upper case, recovery queue), namespace tag, force flag, on a real partition; validity of every outcome plus agreement with a three-valued reference evaluator of "
+            "the rule chain (accept(q) / reject / don't know); non-trivial = a queue was created by placement, or the reference decided a chain of >=2 rules; distinct = hash of configuration and submissions",
+    "assumptions": COMMON_ASSUMPTIONS + ["requested queue names and tag values with upper case letters, names with dots, error paths of the rules (invalid names, parent rule returning a leaf, "
+                                         "creation below a leaf) are answered 'don't know' by the reference: only validity is checked for them",
+                                         "draining queues and quota tags are not generated here (C16 / C02 cover them)"],
+    "timeout_quick": 600,
+    "timeout_thorough": 3000,
+}
+
 WORLD_ASSUMPTIONS = COMMON_ASSUMPTIONS + [
     "interleavings are explored at the granularity of one whole RM event handler / one scheduling cycle (finer interleavings belong to C14)",
     "timers are fired deterministically through hooks, only when the real timer is armed; ask age is 0 or 3600 s",
@@ -166,6 +180,12 @@ META = {
                       "scheduler and repeated validation; coverage-guided fuzzing of raw YAML bytes in the thorough tier; no counterexample in N documents, absence not established",
         "level_note": "trusts the independent predicate and quantity parser in props/, the harness world for load/reload, the Go toolchain; soundness of validation only",
         "technique": "property-based testing (rapid) with a near-valid mutation generator and an independent validity predicate, plus native go fuzzing of YAML bytes",
+    },
+    "C17": {
+        "level_text": "generated-input search: rule chains, ACL layouts and submissions on a real partition against a validity predicate for every outcome and a differential three-valued reference "
+                      "evaluator (first rule whose filter admits the user and whose queue the user may submit to); no counterexample in N cases, absence not established",
+        "level_note": "trusts the reference evaluator in props/c17_test.go (which says 'don't know' on error paths), the harness world and the Go toolchain",
+        "technique": "property-based testing (rapid): validity predicate + differential against a reference placement evaluator",
     },
     "C01": _world_meta("a per-decision fit/schedulable/reservation/predicate oracle on the pre-step node view and node ledger equalities after every step"),
     "C02": _world_meta("a per-decision queue-maximum oracle along the queue path and the effective-limit ordering after every step"),
